@@ -1,95 +1,69 @@
 (* C15 — format auto-detection depends only on the file, not on history.
-   Property statements only.  Model: Model/Registry.v
-     impl_step / impl_run : the code (getreader inserts the suffix preference INTO the global registry),
-     spec_step / spec_results : the repaired getreader (`_myreaders = list(_readers)`), i.e. what a fresh process does.
+   Property statements only.  Model: Model/Registry.v, describing the REPAIRED getreader
+   (`_myreaders = list(_readers)`, fix C15-registry-alias; before the repair the suffix preference was inserted into
+   the process-global registry and every statement below marked [+] was false — witnesses now live in corpus/C15/).
    `acc r f` (does reader r's isMine accept / reject / raise on file f) is universally quantified: the theorems
    hold for every accept relation, every registry, every history (induction over the history). *)
 From PNC Require Import Base.Util Model.Registry Proofs.RegistryProofs.
 
-(* ---- what the property demands holds for the REPAIRED getreader, at full strength: the registry is never
-   changed, and the result of any open after any history equals the result in a fresh process. *)
-Theorem C15_spec_history_independent : forall acc reg h s,
-  spec_final acc reg h = reg
-  /\ snd (spec_step acc (spec_final acc reg h) s) = snd (spec_step acc reg s).
-Proof. exact spec_history_independent. Qed.
-Print Assumptions C15_spec_history_independent.
+(* [+] An open (auto-detected or named) never changes the registry ... *)
+Theorem C15_getreader_pure : forall acc reg s, fst (impl_step acc reg s) = reg.
+Proof. exact step_pure. Qed.
+Print Assumptions C15_getreader_pure.
 
-(* ---- the code as it is: exact description of the state after ANY history: the pairs inserted by the
-   auto-detected opens whose suffix is a registered name, newest first, in front of the initial registry. *)
-Theorem C15_impl_registry_shape : forall acc reg h,
-  impl_final acc reg h = rev (inserted reg h) ++ reg.
-Proof. exact run_shape. Qed.
-Print Assumptions C15_impl_registry_shape.
+(* [+] ... so after ANY history, however often whatever was opened, the registry is the initial one, *)
+Theorem C15_registry_unchanged : forall acc reg h, impl_final acc reg h = reg.
+Proof. exact registry_unchanged. Qed.
+Print Assumptions C15_registry_unchanged.
 
-Theorem C15_registry_grows : forall acc reg h,
-  length (impl_final acc reg h) = length reg + length (inserted reg h).
-Proof. exact registry_grows. Qed.
-Print Assumptions C15_registry_grows.
+(* [+] every open of a history selects what a fresh process selects for the same path (FULL statement, first clause), *)
+Theorem C15_history_independent : forall acc reg h,
+  impl_results acc reg h = spec_results acc reg h.
+Proof. exact history_independent. Qed.
+Print Assumptions C15_history_independent.
 
-(* the SET of registered (name, reader) pairs never changes — only order and multiplicity do *)
-Theorem C15_registry_set_preserved : forall acc reg h kr,
-  In kr (impl_final acc reg h) <-> In kr reg.
-Proof. exact registry_set_preserved. Qed.
-Print Assumptions C15_registry_set_preserved.
+(* [+] and any probe after any history behaves exactly as the same probe in a fresh process. *)
+Theorem C15_probe_after_history : forall acc reg h s,
+  impl_step acc (impl_final acc reg h) s = impl_step acc reg s.
+Proof. exact probe_after_history. Qed.
+Print Assumptions C15_probe_after_history.
 
-(* opening with the format named explicitly is history independent even in the code as it is (full strength) *)
-Theorem C15_named_history_independent : forall acc reg h n f,
-  snd (impl_step acc (impl_final acc reg h) (Named n f)) = snd (impl_step acc reg (Named n f))
-  /\ fst (impl_step acc (impl_final acc reg h) (Named n f)) = impl_final acc reg h.
-Proof. exact named_step_history_independent. Qed.
-Print Assumptions C15_named_history_independent.
+(* the registry length observed after every step is constant *)
+Theorem C15_registry_length_constant : forall acc reg h,
+  map snd (snd (impl_run acc reg h)) = map (fun _ => length reg) h.
+Proof. exact registry_length_steps. Qed.
+Print Assumptions C15_registry_length_constant.
 
-(* ---- FULL statement for the code as it is: FALSE (witnesses: w_reg / w_acc in Proofs/RegistryProofs.v, a miniature
-   of the real registry, evaluated by vm_compute).  After opening `x.nc`, an extension-less IOAPI file is
-   handed to the plain netcdf reader instead of the reader a fresh process selects ... *)
-Theorem C15_history_independent_refuted : exists acc reg h,
-  impl_results acc reg h <> spec_results acc reg h.
-Proof. exact history_independent_refuted. Qed.
-Print Assumptions C15_history_independent_refuted.
-
-(* ... and after opening a uamiv file, an extension-less netCDF file that a fresh process opens can no longer be
-   opened at all (uamiv.isMine, now first, raises and getreader does not catch it). *)
-Theorem C15_history_breaks_open_refuted : exists acc reg h r e,
-  nth 1 (spec_results acc reg h) NoResult = Selected r
-  /\ nth 1 (impl_results acc reg h) NoResult = Raised e.
-Proof. exact history_breaks_open_refuted. Qed.
-Print Assumptions C15_history_breaks_open_refuted.
-
-(* the registry itself depends on how often a file was opened *)
-Theorem C15_registry_unchanged_refuted : exists acc reg h, impl_final acc reg h <> reg.
-Proof. exact registry_unchanged_refuted. Qed.
-Print Assumptions C15_registry_unchanged_refuted.
-
-(* ---- PARTIAL: the sub-domain on which the code as it is IS history independent.  `neutral acc reg h`
-   (boolean, also computed by the correspondence as region 0): for every auto-detected open of the history,
-   either its own suffix reader decides, or every reader preferred by an earlier open rejects the file or yields
-   exactly the fresh result.  Missing: histories in which an earlier telling-extension open preferred a reader that
-   claims (or chokes on) a later probed file — there the statement is false (refutations above). *)
-Theorem C15_history_independent_partial : forall acc reg h,
-  neutral acc reg h = true -> impl_results acc reg h = spec_results acc reg h.
-Proof. exact run_neutral. Qed.
-Print Assumptions C15_history_independent_partial.
+(* ---- second clause (auto-detected = explicitly named) ------------------------------------------------
+   With a telling extension (suffix = the format's registered name, and that reader accepts the file) auto-detection
+   selects exactly the named reader, after any history: full strength. *)
+Theorem C15_telling_extension_selects_named : forall acc reg h e f r,
+  lookup_last e reg = Some r -> acc r f = Yes ->
+  snd (impl_step acc (impl_final acc reg h) (Auto e f)) = Selected r
+  /\ snd (impl_step acc (impl_final acc reg h) (Named e f)) = Selected r.
+Proof. exact telling_extension. Qed.
+Print Assumptions C15_telling_extension_selects_named.
 
 (* a file that exactly one registered class claims (and none chokes on) is detected as that class under any
-   extension, after ANY history, how often whatever was opened — full strength on the unambiguous files *)
+   extension, after any history *)
 Theorem C15_sole_claimant_any_history : forall acc reg h e f r,
   sole_claimant acc reg r f = true ->
   snd (impl_step acc (impl_final acc reg h) (Auto e f)) = Selected r.
 Proof. exact sole_claimant_any_history. Qed.
 Print Assumptions C15_sole_claimant_any_history.
 
-(* ---- second clause (auto-detected = explicitly named).  With a telling extension (suffix = the format's
-   registered name, and that reader accepts the file) auto-detection selects exactly the named reader, after any
-   history: full strength. *)
-Theorem C15_telling_extension_selects_named : forall acc reg h e f r,
-  lookup_last e reg = Some r -> acc r f = Yes ->
-  snd (impl_step acc (impl_final acc reg h) (Auto e f)) = Selected r
-  /\ snd (impl_step acc reg (Named e f)) = Selected r.
-Proof. exact telling_extension. Qed.
-Print Assumptions C15_telling_extension_selects_named.
+(* PARTIAL (second clause): on the files that exactly one registered class claims, auto-detection under any suffix
+   selects the reader registered under the format's name.  Missing: files that several registered classes claim —
+   there registry order decides and the clause is false already in a fresh process (next theorem). *)
+Theorem C15_auto_equals_named_partial : forall acc reg h e n f r,
+  sole_claimant acc reg r f = true -> lookup_last n reg = Some r ->
+  snd (impl_step acc (impl_final acc reg h) (Auto e f))
+  = snd (impl_step acc (impl_final acc reg h) (Named n f)).
+Proof. exact auto_equals_named_sole. Qed.
+Print Assumptions C15_auto_equals_named_partial.
 
-(* Without a telling extension the clause is FALSE already in a fresh process: the named reader accepts the file,
-   but another class registered earlier claims it too (humidity file -> vertical_diffusivity class). *)
+(* the named reader accepts the file, but another class registered earlier claims it too
+   (humidity file -> vertical_diffusivity class; witness w_reg / w_acc in Proofs/RegistryProofs.v, vm_compute) *)
 Theorem C15_auto_equals_named_refuted : exists acc reg n r f noext r',
   lookup_last n reg = Some r /\ acc r f = Yes
   /\ fresh_result acc reg (Named n f) = Selected r
@@ -97,16 +71,15 @@ Theorem C15_auto_equals_named_refuted : exists acc reg n r f noext r',
 Proof. exact auto_equals_named_refuted. Qed.
 Print Assumptions C15_auto_equals_named_refuted.
 
-(* Non-vacuity: the hypotheses of the partial theorems are met by non-trivial histories on the witness registry
-   (registry really changes; the probed file is claimed by several readers). *)
-Example C15_neutral_inhabited :
-  neutral w_acc w_reg [Auto 3 1; Auto 5 2; Auto 9 2; Auto 3 0; Named 1 0] = true
-  /\ impl_final w_acc w_reg [Auto 3 1; Auto 5 2; Auto 9 2; Auto 3 0; Named 1 0] <> w_reg
-  /\ impl_results w_acc w_reg [Auto 3 1; Auto 5 2; Auto 9 2; Auto 3 0; Named 1 0]
-     = [Selected 2; Selected 4; Selected 4; Selected 2; Selected 1].
-Proof. vm_compute. repeat split; try reflexivity. discriminate. Qed.
+(* Non-vacuity: a history with telling-extension opens followed by extension-less probes of files that several
+   readers claim (the pattern that used to fail) on the witness registry *)
+Example C15_history_inhabited :
+  impl_results w_acc w_reg [Auto 3 1; Auto 5 2; Auto 9 0; Auto 9 1; Auto 6 3; Auto 9 3; Named 1 0]
+  = [Selected 2; Selected 4; Selected 0; Selected 0; Selected 6; Selected 5; Selected 1]
+  /\ impl_final w_acc w_reg [Auto 3 1; Auto 5 2; Auto 9 0; Auto 9 1; Auto 6 3; Auto 9 3; Named 1 0] = w_reg.
+Proof. vm_compute. split; reflexivity. Qed.
 
 Example C15_sole_claimant_inhabited :
   sole_claimant (acc_of [(2, [(4, Yes)])]) [(0, 0); (5, 4); (3, 2)] 4 2 = true
-  /\ lookup_last 5 w_reg = Some 4 /\ w_acc 4 2 = Yes.
-Proof. vm_compute. repeat split; reflexivity. Qed.
+  /\ lookup_last 5 [(0, 0); (5, 4); (3, 2)] = Some 4.
+Proof. vm_compute. split; reflexivity. Qed.
